@@ -54,9 +54,12 @@ def gen_query(rng, G):
         if i:
             toks.append(Tok("comma"))
         toks += c
-    toks.append(W("from"))
-    toks.append(L("t"))
-    for o in rng.sample([["depth", "maxdepth"], ["sym", "symlinks"], ["arc", "archives"], ["dfs"], ["bfs"], ["mindepth"]], rng.randint(0, 2)):
+    # a query may leave out FROM altogether (the current directory is searched); the column list then ends at the first root option word
+    nofrom = rng.random() < 0.2
+    if not nofrom:
+        toks.append(W("from"))
+        toks.append(L("t"))
+    for o in rng.sample([["depth", "maxdepth"], ["sym", "symlinks"], ["arc", "archives"], ["dfs"], ["bfs"], ["mindepth"]], rng.randint(1, 2) if nofrom else rng.randint(0, 2)):
         toks.append(Tok("alias", o[0], o))
         if o[0] in ("depth", "mindepth"):
             toks.append(L(str(rng.randint(1, 3))))
@@ -270,6 +273,6 @@ def run(ctx):
                 ctx.notes.append("%s: witness no longer fails; update KNOWN_FINDINGS.json" % k["id"])
     ctx.coverage.update(
         evaluations=len(cases) + nrows, distinct_nontrivial=len(st["distinct"]), traces_validated_against_impl=st["agreed"],
-        rule="valid queries from a typed generator (1-4 columns incl. functions/arithmetic, root options, WHERE with all operator kinds, brackets, GROUP BY (directly after the root options and after WHERE), ORDER BY, LIMIT, INTO) x renderings: split at every whitespace, random split sets (keeping the search root alone in its argument, see F23), EVERY alias of every aliased token one at a time (alias groups read from the regenerated Field / Function / Op / arithmetic tables), a case variant of every word, the other bracket style, optional tokens (select, commas, asc, () after an argument-less function) and random mixtures; the parsed Query of the real parser must be identical to that of the canonical rendering, and (sampled) the binary's output identical. non-trivial = a rendering that differs textually from the canonical one",
+        rule="valid queries from a typed generator (1-4 columns incl. functions/arithmetic, root options (after FROM, or directly after the columns in a query without FROM), WHERE with all operator kinds, brackets, GROUP BY (directly after the root options and after WHERE), ORDER BY, LIMIT, INTO) x renderings: split at every whitespace, random split sets (keeping the search root alone in its argument, see F23), EVERY alias of every aliased token one at a time (alias groups read from the regenerated Field / Function / Op / arithmetic tables), a case variant of every word, the other bracket style, optional tokens (select, commas, asc, () after an argument-less function) and random mixtures; the parsed Query of the real parser must be identical to that of the canonical rendering, and (sampled) the binary's output identical. non-trivial = a rendering that differs textually from the canonical one",
         samples=st["samples"], distribution=dict(st["hist"]))
     return ctx.finish(trusted=["the alias groups are the ones the source's own lookup tables define (regenerated on this run); docs/usage.md is compared with them in props/C11.v"])
